@@ -93,10 +93,22 @@ def run_case(ctx, mr, case):
     c.close()
     # writes
     cm = mk() if mk else None
+    own = None
+    if cm and rng.random() < 0.4:
+        # a scheme made with an engine of its own: its CMAC is made under THAT engine's key, whatever the container's engine holds
+        from pyctr.crypto.engine import CryptoEngine
+        pyenv.uninstall_fake_boot9()
+        own = CryptoEngine(setup_b9_keys=False)
+        cm.crypto = own
+        ctx.stat('scheme_with_own_engine')
     c, bio = sc.open_container(img, geom['kind'], cmac_base=cm)
     key = pyenv.rbytes(rng, 16)
     if cm:
-        c._crypto.set_normal_key(SLOT_OF[name], key)
+        if own is not None:
+            own.set_normal_key(SLOT_OF[name], key)
+            c._crypto.set_normal_key(SLOT_OF[name], pyenv.rbytes(rng, 16))
+        else:
+            c._crypto.set_normal_key(SLOT_OF[name], key)
     contents = [bytearray(p) for p in payloads]
     touched = [set() for _ in payloads]
     wrote = False
